@@ -227,7 +227,7 @@ NextMode(m, e) ==
 InitEv == [op |-> "init"]
 
 Init == /\ \E i \in DOMAIN Traces : tr = Traces[i]
-        /\ S = SemOf(tr.net)
+        /\ S = IF "srcs" \in DOMAIN tr THEN SemOfSrcs(tr.net, SeqToSet(tr.srcs) \cap Sources(tr.net)) ELSE SemOf(tr.net)
         /\ l = 1
         /\ D = EmptyDiagram
         /\ pre = EmptyDiagram
